@@ -112,6 +112,9 @@ func pulsarToGogo(mt protoreflect.MessageType, gt reflect.Type, nv namedVal) *rt
 	if err != nil {
 		return &rtFailure{"gogo-decode-error", fmt.Sprintf("pulsar bytes %s: %v", hx(b1), err)}
 	}
+	if d := gogoValueDiffers(reflect.ValueOf(gm), m0, "", 0); d != "" {
+		return &rtFailure{"gogo-value-differs", fmt.Sprintf("pulsar bytes %s decoded by gogoproto: %s", hx(b1), d)}
+	}
 	b2, err := gogoEncode(gm)
 	if err != nil {
 		return &rtFailure{"gogo-encode-error", fmt.Sprintf("after decoding pulsar bytes %s: %v", hx(b1), err)}
@@ -143,6 +146,11 @@ func gogoToPulsar(mt protoreflect.MessageType, gt reflect.Type, gmd protoreflect
 	gm, err := gogoDecode(gt, db)
 	if err != nil {
 		return &rtFailure{"gogo-rejects-value-of-own-descriptor", fmt.Sprintf("bytes %s: %v", hx(db), err)}
+	}
+	if want := mt.New(); apply(nv.v, want) == nil {
+		if d := gogoValueDiffers(reflect.ValueOf(gm), want, "", 0); d != "" {
+			return &rtFailure{"gogo-value-differs", fmt.Sprintf("bytes %s decoded by gogoproto: %s", hx(db), d)}
+		}
 	}
 	g1, err := gogoEncode(gm)
 	if err != nil {
